@@ -652,23 +652,11 @@ theorem wrapS_id (W : Nat) (z : Int) (hW : 0 < W) (h1 : -(2 ^ (W - 1)) ≤ z) (h
 theorem extWidth_ge (W : Nat) (h : W ≤ 64) : W ≤ extWidth W := by
   unfold extWidth; split <;> omega
 
-/-- `nunavutGetI8/16/32/64`, both renderings: two's-complement value of the zero-extended field of
-`sat = min len W` bits; no out-of-bounds access, no signed overflow. -/
-theorem getI_spec (little : Bool) (W : Nat) (buf : Buf) (size off len : Nat) (hW : W % 8 = 0) (hW0 : 0 < W)
-    (hW64 : W ≤ 64) (hsize : size ≤ buf.length) (hw : WF buf) :
-    getI little W buf size off len = .ok
-      (let sat := min len W
-       let u := fieldOf (fun i => zbit buf size (off + i)) sat
-       if sat > 0 ∧ u.testBit (sat - 1) then (u : Int) - 2 ^ sat else (u : Int)) := by
-  unfold getI
-  dsimp only
-  rw [chooseMin_eq, getU_spec little W buf size off (min len W) hW hsize hw]
-  generalize hsat : min len W = sat
-  have hsW : sat ≤ W := by omega
-  rw [show min sat W = sat by omega]
-  generalize hu : fieldOf (fun i => zbit buf size (off + i)) sat = u
-  have hult : u < 2 ^ sat := hu ▸ fieldOf_lt _ _
-  simp only [bind, Except.bind, and_two_pow_ne_zero]
+/-- the shared sign-extension text: two's-complement value of a `sat`-bit field, no signed overflow -/
+theorem signExtend_spec (W sat u : Nat) (hW0 : 0 < W) (hW64 : W ≤ 64) (hsW : sat ≤ W) (hult : u < 2 ^ sat) :
+    signExtend W sat u = .ok (if sat > 0 ∧ u.testBit (sat - 1) then (u : Int) - 2 ^ sat else (u : Int)) := by
+  unfold signExtend
+  simp only [and_two_pow_ne_zero]
   have hCW := extWidth_ge W hW64
   generalize extWidth W = C at hCW
   have hpW : (2 : Int) ^ (W - 1) > 0 := Int.pow_pos (by omega)
@@ -741,6 +729,21 @@ theorem getI_spec (little : Bool) (W : Nat) (buf : Buf) (size off len : Nat) (hW
         rw [this]; exact Nat.two_pow_pos _
     have hsI : (u : Int) < 2 ^ (W - 1) := by exact_mod_cast hsmall
     rw [wrapS_id W _ hW0 (by omega) hsI]
+
+/-- `nunavutGetI8/16/32/64`, both renderings: two's-complement value of the zero-extended field of
+`sat = min len W` bits; no out-of-bounds access, no signed overflow. -/
+theorem getI_spec (little : Bool) (W : Nat) (buf : Buf) (size off len : Nat) (hW : W % 8 = 0) (hW0 : 0 < W)
+    (hW64 : W ≤ 64) (hsize : size ≤ buf.length) (hw : WF buf) :
+    getI little W buf size off len = .ok
+      (let sat := min len W
+       let u := fieldOf (fun i => zbit buf size (off + i)) sat
+       if sat > 0 ∧ u.testBit (sat - 1) then (u : Int) - 2 ^ sat else (u : Int)) := by
+  unfold getI
+  dsimp only
+  rw [chooseMin_eq, getU_spec little W buf size off (min len W) hW hsize hw]
+  rw [show min (min len W) W = min len W by omega]
+  simp only [bind, Except.bind]
+  exact signExtend_spec W _ _ hW0 hW64 (by omega) (fieldOf_lt _ _)
 
 
 end NunavutVerif.Bits
